@@ -10,7 +10,7 @@ NOT_APPLICABLE = {
     "C09": "two's-complement identities realised through magnitude-1 tricks and word scans are bit-level value properties; the sign dispatch is not polynomial so the ALG table check does not apply.",
     "C11": "a 1-ulp accuracy bound depends on whether heuristic guard-digit counts suffice for every argument and precision: numerical analysis, not code shape. Unlimited-precision refusal and domain guards are decided under C16.",
     "C12": "gcd/Bezout identities, root and logarithm inequalities are number-theoretic invariants of loops over runtime values (Lehmer steps, Newton iteration); the documented panics are decided under C16.",
-    "C14": "agreement of the log2-bound filter with exact comparison near the overlap boundary and modular-hash consistency are numeric; no clause is visible in code shape beyond what C05 covers.",
+    "C14": "agreement of the log2-bound filter with exact comparison near the overlap boundary and modular-hash consistency are numeric; the structural part (conservative orientation of the filter, Eq/Hash projection agreement) is decided under C05 (R05.2, R05.3c).",
 }
 ALL = ["C%02d" % i for i in range(1, 21)]
 
